@@ -349,6 +349,11 @@ def thread_events(fn, loop, out, name, sites):
                 if not (is_call(v, 'np.zeros') and v.args and isinstance(v.args[0], ast.Tuple) and v.args[0].elts
                         and is_name(v.args[0].elts[0]) and v.args[0].elts[0].id in bound):
                     raise TE(f'site {site}: accumulator {tgt} is not allocated as np.zeros((<thread count>, ...))')
+                if tgt == 'counts':
+                    # the mode counts are exact integers only if they are accumulated in a 64-bit integer array
+                    dt = [k.value for k in v.keywords if k.arg == 'dtype']
+                    if not (len(dt) == 1 and isinstance(dt[0], ast.Attribute) and is_name(dt[0].value, 'np') and dt[0].attr == 'int64'):
+                        raise TE(f'site {fn.name}:counts-dtype: the per-thread mode-count accumulator is not allocated with dtype=np.int64')
                 evs.append(f'TAlloc "{v.args[0].elts[0].id}"%string')
                 allocated.add(tgt)
                 continue
@@ -363,6 +368,9 @@ def thread_events(fn, loop, out, name, sites):
                         raise TE(f'site {site}: {t.id} is assigned inside a nested statement before the loop')
     if per_thread - allocated:
         raise TE(f'site {site}: no allocation found for {sorted(per_thread - allocated)}')
+    if 'counts' not in allocated:
+        raise TE(f'site {fn.name}:counts-dtype: no per-thread int64 accumulator named counts')
+    sites.append(f'{fn.name}:counts-dtype')
     out.append(f'Definition {name} : list tev := [' + '; '.join(evs) + '].\n')
     sites.append(site)
 
